@@ -419,6 +419,7 @@ func init() {
 			complete := true
 			eval := func(c c19Case, nontrivial bool, size int) {
 				r.Evals.Add(1)
+				r.Journal(c)
 				r.Transitions.Add(1)
 				ok, sig, detail := c19Eval(c)
 				if nontrivial {
@@ -607,6 +608,9 @@ func init() {
 				enc := encodeAll(dom)
 				done := r.ParallelFor(n*n, func(idx int) {
 					a, b := idx%n, idx/n
+					if engine.Journalling() {
+						r.Journal(c19Case{Kind: "order", Locs: []string{enc[a], enc[b], enc[a]}})
+					}
 					ab, ba := gts.LocationLess(dom[a], dom[b]), gts.LocationLess(dom[b], dom[a])
 					r.Evals.Add(1)
 					if a == b && ab {
